@@ -318,12 +318,24 @@ func (cm *Manager) ProcessActions(index types.ChainIndex) error {
 		case len(formationSet.Transactions) == 0:
 			log.Debug("skipping empty formation set")
 			continue
-		case len(formationSet.Transactions[len(formationSet.Transactions)-1].FileContracts) == 0:
+		}
+		formationTxn := formationSet.Transactions[len(formationSet.Transactions)-1]
+		var contractID types.FileContractID
+		switch {
+		case len(formationTxn.FileContracts) > 0:
+			contractID = formationTxn.V2FileContractID(formationTxn.ID(), 0)
+		case len(formationTxn.FileContractResolutions) == 1:
+			// the formation set of a renewed contract is the renewal set: its
+			// last transaction resolves the existing contract
+			if _, ok := formationTxn.FileContractResolutions[0].Resolution.(*types.V2FileContractRenewal); !ok {
+				log.Debug("skipping formation set missing file contract")
+				continue
+			}
+			contractID = types.FileContractID(formationTxn.FileContractResolutions[0].Parent.ID).V2RenewalID()
+		default:
 			log.Debug("skipping formation set missing file contract")
 			continue
 		}
-		formationTxn := formationSet.Transactions[len(formationSet.Transactions)-1]
-		contractID := formationTxn.V2FileContractID(formationTxn.ID(), 0)
 		log := log.Named("v2 formation").With(zap.Stringer("basis", formationSet.Basis), zap.Stringer("contractID", contractID))
 
 		if _, err := cm.chain.AddV2PoolTransactions(formationSet.Basis, formationSet.Transactions); err != nil {
